@@ -9,28 +9,34 @@ repository adds around it:
            any length, and cursor-AAD != call-AAD for all identity pairs (cvc5, unbounded; z3
            cross-check on lengths <= 8).
 (b) xh   : framing — seal/open round trip of both token kinds with symbolic segments, only under the
-           same key and AAD; for an arbitrary plaintext `_open_*` either raises the HTTP-400 error
-           with a message of the fixed per-kind set or returns segments that re-frame to exactly
-           that plaintext (no slack, no overrun).
+           same key and AAD; for an arbitrary authenticated plaintext `_open_*` either raises the
+           HTTP-400 error or returns segments that the live `_seal_*` frames to exactly that plaintext
+           (no slack, no overrun, no second reading).  No offset / constant / segment order of the
+           token format is written in the harness: the timestamp field and the minimal frame are
+           derived from the live sealer.
 (c) xh   : TTL — rejected <=> ttl > 0 and now - created_at > ttl (integer clock, all 64-bit
-           timestamps), and the seal side stores created_at little-endian in bytes 0..7.
+           timestamps <= now, ttl >= 0), and sealing / minting at clock x stores x (little-endian) in
+           the one field the open side reads; both replays run the composition on real code.
 (d) xh   : resolution order in `_unpack_and_recover_state` / `_resolve_call_from_token` — over all
            presentations (own / other stream's / other identity's / kind-swapped / version-relabelled /
-           foreign-key / garbage tokens, cold or warm cache): served <=> cursor minted for the
-           requester's identity and its call resolvable; nothing is deserialised, bound or
-           rehydrated before the cursor opened under the requester's AAD (and, on a miss, the call
-           token under the requester's call-AAD with the same call id); every authentication failure
-           gives the same 400.  Decided for streams that carry call state and for streams that return
-           none (empty call-state segment).
+           foreign-key / garbage tokens, cold or warm cache): served => cursor minted for the
+           requester's identity inside the TTL and everything served is that stream's; without a
+           cache served <=> additionally the call slot holds that stream's call token; the genuine pair
+           is always served; nothing is parsed, deserialised, bound or rehydrated before the token it
+           comes from was authenticated for the requester; every rejection is an HTTP 400, and the
+           authentication failures of a slot are answered exactly like a foreign-key token in that
+           slot (relational - no wording is written in the harness).  A warm worker may serve a
+           genuine cursor from its cache without looking at the call slot, or refuse it: both accepted.
+           Decided for streams that carry call state and for streams that return none.
 (e) xh   : `crypto.seal_bytes/open_bytes` envelope layer over an ideal backend primitive: opens
-           exactly the byte strings it sealed (same key, aad, version byte), SealError otherwise.
+           what it sealed (same key, aad, version byte); SealError for another key / aad and for any
+           change after the version label; a token whose version label alone differs may be refused
+           or opened, never to another payload.
 """
 
 from __future__ import annotations
 
-import struct
-
-from engine.api import cond, pick, task
+from engine.api import HarnessModelError, cond, pick, task
 from engine.reglob import reglobalize
 
 from harness import _tokens_common as tc
@@ -42,28 +48,32 @@ from vgi_rpc.rpc import AuthContext
 PROPERTY = "C12"
 ENCODED = [st._compute_aad, st._compute_call_aad, *tc.TOKEN_FUNCS, aps._unpack_and_recover_state, aps._resolve_call_from_token, crypto.seal_bytes, crypto.open_bytes]
 BOUNDS = (
-    "(a) all identities (and method names, once bound), unbounded string lengths; (b) segments <= 3 bytes, keys/AADs <= 2 bytes, arbitrary cursor plaintexts <= 36 bytes, "
-    "arbitrary call plaintexts <= %d bytes; (c) all 64-bit created_at, unbounded integer now/ttl; (d) 2 streams, 4x4 identities, 6 cursor-slot x (absent + 7) call-slot "
+    "(a) all identities (and method names, once bound), unbounded string lengths; (b) segments <= 3 bytes, keys/AADs <= 2 bytes, arbitrary cursor plaintexts up to 7 bytes longer than the shortest sealed cursor payload, "
+    "arbitrary call plaintexts up to %d byte(s) longer than the shortest sealed call payload; (c) all 64-bit created_at <= now, unbounded integer now, ttl >= 0; (d) 2 streams, 4x4 identities, 6 cursor-slot x (absent + 7) call-slot "
     "presentations, cold / warm cache, any request time >= /init (ttl 50), streams with and without call state; (e) payload <= 2 bytes, same/other key, aad, version byte; envelope untouched / relabelled / "
-    "any single byte substituted / any truncation / one byte appended" % pick(46, 47)
+    "any single byte substituted / any truncation / one byte appended" % pick(1, 2)
 )
 OUTSIDE = (
     "the AEAD primitive itself (bit flips / truncation of real ciphertexts are rejected by *assumption*); base64 alphabet variants (C decoder); "
-    "zstd frames; float clocks; HTTP status mapping of the raised _RpcHttpError; domains containing NUL; non-UTF-8 type/stream-id segments inside an "
+    "zstd frames; float clocks; HTTP status mapping of the raised _RpcHttpError; domains containing NUL; negative ttl and tokens stamped in the future (outside the documented domain); non-UTF-8 type/stream-id segments inside an "
     "authenticated call-token plaintext (UnicodeDecodeError escapes _open_call_token - unreachable for server-minted plaintexts)"
 )
 ASSUMPTIONS = [
     *tc.TOKEN_STUBS,
     "the version byte of crypto's envelope is NOT covered by the AEAD tag (crypto.open_bytes compares it before the tag check): the attacker may relabel a box's version freely; kind separation therefore rests on the AAD prefixes, decided in (a)",
     "str.encode() (UTF-8) is injective and maps exactly the NUL-free strings to NUL-free byte strings",
-    "int.from_bytes(x.to_bytes(8,'little'),'little') == x for 0 <= x < 2**64 (composition of the seal-side and open-side TTL items)",
+    "int.from_bytes(x.to_bytes(8,'little'),'little') == x for 0 <= x < 2**64, and the timestamp field is read as one little-endian integer (composition of the seal-side and open-side TTL items; a format that differs only makes them INCONCLUSIVE - their replays run the un-split composition on real code)",
     "(d) uses 4 representative identities (None, unauthenticated-with-fields, ('d','p'), ('','anonymous')); generalisation to all identities is (a)",
-    "expiry and malformed-base64 rejections carry their own fixed messages by design; uniformity is asserted for authentication failures (foreign key / other identity / swapped kind / relabelled / garbage)",
+    "expiry, malformed-base64, missing-call-token and own-tokens-of-two-streams rejections may carry their own answers by design; indistinguishability is asserted among the authentication failures of one slot (foreign key / other identity / swapped kind / relabelled), relationally against the foreign-key answer",
 ]
 
 _U64 = 2**64
-_CURSOR_MSGS = ("Malformed state token", "State token signature verification failed", "Malformed token payload", "State token expired")
-_CALL_MSGS = ("Malformed call token", "Call token signature verification failed", "Malformed token payload", "Call token expired")
+
+
+def _is_400(exc: BaseException) -> bool:
+    """The rejection the property names: the HTTP layer's error carrying status 400 (wording and cause class are free)."""
+    info = tc.http_error_info(exc)
+    return info is not None and info[0] == 400
 
 
 # ---------------------------------------------------------------------------
@@ -141,8 +151,11 @@ def aad_injective_and_kind_separated(budget: float, replay=None) -> dict:
             ("inj:_compute_aad", [tc.encode_fn(st._compute_aad, S, x) == tc.encode_fn(st._compute_aad, S, y), tc.nul_free_domain(S, x), tc.nul_free_domain(S, y), S.Not(tc.same_identity(S, x, y))]),
             ("inj:_compute_call_aad", [call_aad(x, xm) == call_aad(y, ym), tc.nul_free_domain(S, x), tc.nul_free_domain(S, y), S.Not(S.And(tc.same_identity(S, x, y), same_method))]),
             ("kind", [tc.encode_fn(st._compute_aad, S, x) == call_aad(y, ym)]),
-            # the NUL restriction of the property is necessary (expected sat: shows the query can fail)
-            ("sanity:inj-without-nul-restriction", [tc.encode_fn(st._compute_aad, S, x) == tc.encode_fn(st._compute_aad, S, y), S.Not(tc.same_identity(S, x, y))]),
+            # non-vacuity of the encoding (must be sat for ANY correct implementation): the two spellings of the anonymous
+            # caller (None / an unauthenticated context) are the same identity, so their AADs have to be equal
+            ("sanity:two-spellings-of-anonymous-share-an-aad", [tc.encode_fn(st._compute_aad, S, x) == tc.encode_fn(st._compute_aad, S, y), x.is_none, S.Not(y.is_none), S.Not(y.authd)]),
+            # informational only (not gating): is the NUL restriction of the property needed by this implementation?
+            ("info:inj-without-nul-restriction", [tc.encode_fn(st._compute_aad, S, x) == tc.encode_fn(st._compute_aad, S, y), S.Not(tc.same_identity(S, x, y))]),
         ]
         queries = [(label, [*cs, *side]) for label, cs in queries]
         if sname == "z3" and mp:
@@ -187,10 +200,13 @@ def aad_injective_and_kind_separated(budget: float, replay=None) -> dict:
             return {**res, "verdict": "INCONCLUSIVE", "detail": f"{label}: cvc5={rc} z3={rz}"}
         if rz == "unknown":
             res.setdefault("notes", []).append(f"{label}: z3 cross-check returned unknown within its time limit; verdict rests on cvc5")
-    if verdicts[("cvc5", "sanity:inj-without-nul-restriction")][0] != "sat":
-        return {**res, "verdict": "INCONCLUSIVE", "detail": "sanity query (no NUL restriction) was not satisfiable: encoding suspect"}
+    if verdicts[("cvc5", "sanity:two-spellings-of-anonymous-share-an-aad")][0] != "sat":
+        return {**res, "verdict": "INCONCLUSIVE", "detail": "sanity query (None and an unauthenticated context share an AAD) was not satisfiable: encoding suspect"}
+    nul = verdicts[("cvc5", "info:inj-without-nul-restriction")][0]
     res["verdict"] = "CONFIRMED"
-    res["detail"] = "equal AAD => equal identity (NUL-free domains), cursor AAD never equals call AAD; without the NUL restriction injectivity fails (as the property anticipates)"
+    res["detail"] = "equal AAD => equal identity (NUL-free domains), cursor AAD never equals call AAD; without the NUL restriction injectivity " + (
+        "fails (as the property anticipates)" if nul == "sat" else f"query gave {nul} (informational)"
+    )
     return res
 
 
@@ -242,7 +258,7 @@ def cursor_round_trip_only_same_key_and_aad(state: bytes, call_id: bytes, key: b
     try:
         s2, c2 = tc.open_cursor_token(tok, key2, aad2, 0)
     except Exception as e:  # noqa: BLE001
-        return (not same) and tc.http_error_info(e) == (400, "State token signature verification failed")
+        return (not same) and _is_400(e)
     return same and s2 == state and c2 == call_id
 
 
@@ -273,8 +289,78 @@ def call_round_trip(cs: bytes, sc: bytes, isc: bytes, cid: bytes, pays: bool, sa
     try:
         r = tc.open_call_token(tok, b"k", b"a" if same_aad else b"b", 0)
     except Exception as e:  # noqa: BLE001
-        return (not same_aad) and tc.http_error_info(e) == (400, "Call token signature verification failed")
+        return (not same_aad) and _is_400(e)
     return same_aad and r == (cs, ty, sc, isc, cid, sid)
+
+
+# --- arbitrary authenticated plaintexts: the parser is the exact inverse of the repository's own sealer -------------
+# Layout-free oracle: whatever `_open_*` accepts must be EXACTLY what the live `_seal_*` produces for the returned
+# segments (so no slack, no overrun, no second reading of the same bytes) - compared as framed plaintexts, outside the
+# bytes that depend on `created_at` only.  Those positions, and the shortest frame, are derived from the live sealer;
+# no offset, constant or segment order of the token format is written down here.
+
+_KR, _AR = b"k" * 32, b"a"  # key / aad of the real-crypto replays
+_ZCID = bytes(st._CALL_ID_LEN)
+
+
+def _stub_plain(box):  # type: ignore[no-untyped-def]
+    """Framed plaintext inside a sealed box of the ideal AEAD (live codec reader over the zstd stub)."""
+    return tc.unpack_plaintext(box.payload)
+
+
+def _real_plain(token: bytes, version: int) -> bytes:
+    """Framed plaintext of a really sealed token (real base64, crypto, codec)."""
+    import base64
+
+    return st._unpack_plaintext(crypto.open_bytes(base64.b64decode(token), _KR, aad=_AR, version=version))
+
+
+def _created_span(plain_at) -> tuple:  # type: ignore[no-untyped-def]
+    """[lo, hi) = the positions of the framed plaintext that vary with created_at (and with nothing else)."""
+    p0, p1, p2 = plain_at(0), plain_at(_U64 - 1), plain_at(0x0102030405060708)
+    diff = [i for i in range(min(len(p0), len(p1))) if p0[i] != p1[i]]
+    if len(p0) != len(p1) or len(p0) != len(p2) or not diff or diff != list(range(diff[0], diff[-1] + 1)):
+        raise HarnessModelError("created_at does not occupy one fixed-width field of the framed plaintext")
+    lo, hi = diff[0], diff[-1] + 1
+    if p2[:lo] != p0[:lo] or p2[hi:] != p0[hi:]:
+        raise HarnessModelError("created_at influences the framed plaintext outside its field")
+    return lo, hi
+
+
+def _seal_cursor_stub(s, c, created):  # type: ignore[no-untyped-def]
+    return tc.seal_cursor_token(s, c, b"k", b"a", created)
+
+
+def _seal_call_stub(parts, created):  # type: ignore[no-untyped-def]
+    cs, ty, sc, isc, cid, sid = parts
+    return tc.seal_call_token(cs, ty, sc, isc, cid, sid, b"k", b"a", created)
+
+
+def _seal_call_real(parts, created):  # type: ignore[no-untyped-def]
+    cs, ty, sc, isc, cid, sid = parts
+    return st._seal_call_token(cs, ty, sc, isc, cid, sid, _KR, _AR, created)
+
+
+_EMPTY_CALL = (b"", "", b"", b"", _ZCID, "")
+try:
+    _CUR_SPAN = _created_span(lambda c: _stub_plain(_seal_cursor_stub(b"", _ZCID, c)))
+    _CALL_SPAN = _created_span(lambda c: _stub_plain(_seal_call_stub(_EMPTY_CALL, c)))
+    # shortest sealed payloads (codec tag + frame) the live sealer produces: empty segments, a call id of the live length
+    _CUR_MIN = len(_seal_cursor_stub(b"", _ZCID, 0).payload)
+    _CALL_MIN = len(_seal_call_stub(_EMPTY_CALL, 0).payload)
+    _SPAN_ERR = None
+except Exception as _e:  # noqa: BLE001
+    _CUR_SPAN = _CALL_SPAN = (0, 0)
+    _CUR_MIN, _CALL_MIN = 29, 45
+    _SPAN_ERR = repr(_e)
+tc.reset()
+
+
+def _same_frame(plain, ref, span) -> bool:  # type: ignore[no-untyped-def]
+    if _SPAN_ERR is not None:
+        raise HarnessModelError(f"token frame could not be derived from the live sealer: {_SPAN_ERR}")
+    lo, hi = span
+    return len(plain) == len(ref) and plain[:lo] == ref[:lo] and plain[hi:] == ref[hi:]
 
 
 def _replay_cursor_plain(args: dict) -> str | None:
@@ -284,27 +370,32 @@ def _replay_cursor_plain(args: dict) -> str | None:
     import zstandard
 
     data = args["data"]
-    plain = data[1:]
-    if data[:1] == b"\x01":
+    if data[:1] == st._CODEC_ZSTD:
         if not args["zok"]:
             return None
-        plain = args["zraw"]
-        data = b"\x01" + zstandard.ZstdCompressor().compress(plain)
-    tok = base64.b64encode(crypto.seal_bytes(data, b"k" * 32, aad=b"a", version=st._CURSOR_TOKEN_VERSION))
+        data = st._CODEC_ZSTD + zstandard.ZstdCompressor().compress(args["zraw"])
+    tok = base64.b64encode(crypto.seal_bytes(data, _KR, aad=_AR, version=st._CURSOR_TOKEN_VERSION))
     try:
-        s2, c2 = st._open_cursor_token(tok, b"k" * 32, b"a", 0)
+        s2, c2 = st._open_cursor_token(tok, _KR, _AR, 0)
     except Exception as e:  # noqa: BLE001
-        info = tc.http_error_info(e)
-        return None if info is not None and info[0] == 400 and info[1] in _CURSOR_MSGS else f"_open_cursor_token raised {e!r}"
-    ok = data[:1] in (b"\x00", b"\x01") and plain[8:] == c2 + struct.pack("<I", len(s2)) + s2 and len(c2) == 16
-    return None if ok else f"_open_cursor_token accepted plaintext {plain!r} as {(s2, c2)!r} which does not re-frame to it"
+        return None if _is_400(e) else f"_open_cursor_token raised {e!r} for an authenticated plaintext (not the HTTP 400 rejection)"
+    v = st._CURSOR_TOKEN_VERSION
+    span = _created_span(lambda c: _real_plain(st._seal_cursor_token(b"", _ZCID, _KR, _AR, c), v))
+    plain, ref = st._unpack_plaintext(data), _real_plain(st._seal_cursor_token(s2, c2, _KR, _AR, 0), v)
+    lo, hi = span
+    ok = len(plain) == len(ref) and plain[:lo] == ref[:lo] and plain[hi:] == ref[hi:]
+    return None if ok else f"_open_cursor_token accepted plaintext {plain!r} as {(s2, c2)!r}, which _seal_cursor_token frames as {ref!r}"
 
 
-@cond(q=60, t=200, stubs=tc.TOKEN_STUBS, encoded=[st._open_cursor_token, st._unpack_plaintext, st._read_segment], bound="any authenticated plaintext <= 36 bytes (raw codec) / any decompressed body <= 32 bytes (zstd codec)",
+_CUR_HI, _CUR_ZHI = _CUR_MIN + 7, _CUR_MIN + 3
+
+
+@cond(q=75, t=240, stubs=tc.TOKEN_STUBS, encoded=[st._open_cursor_token, st._seal_cursor_token, st._unpack_plaintext, st._read_segment],
+      bound="any authenticated plaintext up to 7 bytes longer than the shortest sealed cursor payload (raw codec) / any decompressed body up to 3 bytes longer (zstd codec)",
       replay=_replay_cursor_plain, signature=lambda a, c: "C12:cursor:parser")
 def cursor_arbitrary_plaintext(data: bytes, zraw: bytes, zok: bool) -> bool:
     """
-    pre: len(data) <= 36 and len(zraw) <= 32
+    pre: len(data) <= _CUR_HI and len(zraw) <= _CUR_ZHI
     post: _
     """
     tc.reset(now=0)
@@ -314,168 +405,194 @@ def cursor_arbitrary_plaintext(data: bytes, zraw: bytes, zok: bool) -> bool:
     try:
         s2, c2 = tc.open_cursor_token(tok, b"k", b"a", 0)
     except Exception as e:  # noqa: BLE001
-        info = tc.http_error_info(e)
-        return info is not None and info[0] == 400 and info[1] in _CURSOR_MSGS
-    if data[:1] == st._CODEC_RAW:
-        plain = data[1:]
-    elif data[:1] == st._CODEC_ZSTD and zok:
-        plain = zraw
-    else:
-        return False
-    return len(c2) == 16 and plain[8:] == c2 + struct.pack("<I", len(s2)) + s2
+        return _is_400(e)
+    # accepted: it must be exactly the frame the live sealer writes for (s2, c2)
+    return _same_frame(tc.unpack_plaintext(data), _stub_plain(_seal_cursor_stub(s2, c2, 0)), _CUR_SPAN)
 
 
 def _call_plain_ok(data: bytes) -> bool:
     tok = tc.Box(data, b"k", b"a", st._CALL_TOKEN_VERSION)
     try:
-        cs, ty, sc, isc, cid, sid = tc.open_call_token(tok, b"k", b"a", 0)
+        parts = tc.open_call_token(tok, b"k", b"a", 0)
     except UnicodeDecodeError:
         # non-UTF-8 type / stream-id segment: unreachable for server-minted plaintexts (see OUTSIDE)
         return True
     except Exception as e:  # noqa: BLE001
-        info = tc.http_error_info(e)
-        return info is not None and info[0] == 400 and info[1] in _CALL_MSGS
-    if data[:1] != st._CODEC_RAW:
-        return False
-    tb, sb = ty.encode(), sid.encode()
-    body = cid + struct.pack("<I", len(cs)) + cs + struct.pack("<I", len(tb)) + tb + struct.pack("<I", len(sc)) + sc + struct.pack("<I", len(isc)) + isc + struct.pack("<I", len(sb)) + sb
-    return len(cid) == 16 and data[9:] == body
+        return _is_400(e)
+    return _same_frame(tc.unpack_plaintext(data), _stub_plain(_seal_call_stub(parts, 0)), _CALL_SPAN)
 
 
 def _replay_call_plain(args: dict) -> str | None:
     data = args["raw"]
-    tok = __import__("base64").b64encode(crypto.seal_bytes(data, b"k" * 32, aad=b"a", version=st._CALL_TOKEN_VERSION))
+    v = st._CALL_TOKEN_VERSION
+    tok = __import__("base64").b64encode(crypto.seal_bytes(data, _KR, aad=_AR, version=v))
     try:
-        cs, ty, sc, isc, cid, sid = st._open_call_token(tok, b"k" * 32, b"a", 0)
+        parts = st._open_call_token(tok, _KR, _AR, 0)
     except UnicodeDecodeError:
         return None
     except Exception as e:  # noqa: BLE001
-        info = tc.http_error_info(e)
-        return None if info is not None and info[0] == 400 and info[1] in _CALL_MSGS else f"_open_call_token raised {e!r}"
-    tb, sb = ty.encode(), sid.encode()
-    body = cid + struct.pack("<I", len(cs)) + cs + struct.pack("<I", len(tb)) + tb + struct.pack("<I", len(sc)) + sc + struct.pack("<I", len(isc)) + isc + struct.pack("<I", len(sb)) + sb
-    return None if data[:1] == b"\x00" and data[9:] == body else f"_open_call_token accepted plaintext {data!r} whose segments do not re-frame to it"
+        return None if _is_400(e) else f"_open_call_token raised {e!r} for an authenticated plaintext (not the HTTP 400 rejection)"
+    lo, hi = _created_span(lambda c: _real_plain(_seal_call_real(_EMPTY_CALL, c), v))
+    plain, ref = st._unpack_plaintext(data), _real_plain(_seal_call_real(parts, 0), v)
+    ok = len(plain) == len(ref) and plain[:lo] == ref[:lo] and plain[hi:] == ref[hi:]
+    return None if ok else f"_open_call_token accepted plaintext {plain!r} as {parts!r}, which _seal_call_token frames as {ref!r}"
 
 
-@cond(q=30, t=60, stubs=tc.TOKEN_STUBS, encoded=[st._open_call_token], bound="any authenticated plaintext of 0..44 bytes", replay=_replay_call_plain, signature=lambda a, c: "C12:call:parser")
+_CALL_SHORT = _CALL_MIN - 1
+
+
+@cond(q=30, t=60, stubs=tc.TOKEN_STUBS, encoded=[st._open_call_token, st._seal_call_token], bound="any authenticated plaintext shorter than the shortest payload the live sealer produces (empty segments)", replay=_replay_call_plain,
+      signature=lambda a, c: "C12:call:parser:short")
 def call_plaintext_too_short(raw: bytes) -> bool:
     """
-    pre: len(raw) <= 44
+    pre: len(raw) <= _CALL_SHORT
     post: _
     """
     tc.reset(now=0)
-    tok = tc.Box(raw, b"k", b"a", st._CALL_TOKEN_VERSION)
-    try:
-        tc.open_call_token(tok, b"k", b"a", 0)
-    except Exception as e:  # noqa: BLE001
-        info = tc.http_error_info(e)
-        return info is not None and info[0] == 400 and info[1] in _CALL_MSGS
-    return False
+    return _call_plain_ok(raw)
 
 
-@cond(q=60, t=200, stubs=tc.TOKEN_STUBS, encoded=[st._open_call_token, st._read_segment, st._unpack_plaintext], bound="any authenticated plaintext of exactly 45 bytes (minimal frame)", replay=_replay_call_plain,
-      signature=lambda a, c: "C12:call:parser")
+@cond(q=75, t=240, stubs=tc.TOKEN_STUBS, encoded=[st._open_call_token, st._seal_call_token, st._read_segment, st._unpack_plaintext], bound="any authenticated plaintext of exactly the shortest sealed payload's length (minimal frame)", replay=_replay_call_plain,
+      signature=lambda a, c: "C12:call:parser:minimal")
 def call_arbitrary_plaintext_45(raw: bytes) -> bool:
     """
-    pre: len(raw) == 45
+    pre: len(raw) == _CALL_MIN
     post: _
     """
     tc.reset(now=0)
-    return _call_plain_ok(_flat(raw, 45, 45))
+    return _call_plain_ok(_flat(raw, _CALL_MIN, _CALL_MIN))
 
 
-_CP_HI = pick(46, 47)
+_CP_HI = _CALL_MIN + pick(1, 2)
 
 
-@cond(q=60, t=600, stubs=tc.TOKEN_STUBS, encoded=[st._open_call_token, st._read_segment, st._unpack_plaintext], bound="any authenticated plaintext of 46..%d bytes" % _CP_HI, replay=_replay_call_plain,
-      signature=lambda a, c: "C12:call:parser")
+@cond(q=75, t=600, stubs=tc.TOKEN_STUBS, encoded=[st._open_call_token, st._seal_call_token, st._read_segment, st._unpack_plaintext], bound="any authenticated plaintext 1..%d bytes longer than the minimal frame" % pick(1, 2), replay=_replay_call_plain,
+      signature=lambda a, c: "C12:call:parser:slack")
 def call_arbitrary_plaintext_slack(raw: bytes) -> bool:
     """
-    pre: 46 <= len(raw) <= _CP_HI
+    pre: _CALL_MIN + 1 <= len(raw) <= _CP_HI
     post: _
     """
     tc.reset(now=0)
-    return _call_plain_ok(_flat(raw, 46, _CP_HI))
+    return _call_plain_ok(_flat(raw, _CALL_MIN + 1, _CP_HI))
 
 
 # ---------------------------------------------------------------------------
 # (c) TTL
 # ---------------------------------------------------------------------------
+# Two halves that compose through one fact about the timestamp field (derived from the live sealer, not written
+# down here): sealing with created_at = x puts x, little-endian, into one fixed field of the sealed payload and
+# changes nothing else (seal side); a payload carrying x in that field is rejected <=> ttl > 0 and now - x > ttl
+# (open side).  Both replays run the un-split composition on real code: mint/seal at clock x, open at `now`.
 
 _T8 = tuple[int, int, int, int, int, int, int, int]
 _CID = b"0123456789abcdef"
+_CUR_PARTS = (b"st", _CID)
+_CALL_PARTS = (b"c", "T", b"s", b"i", _CID, "sid")
+try:
+    _CUR_PSPAN = _created_span(lambda c: _seal_cursor_stub(b"st", _CID, c).payload)
+    _CALL_PSPAN = _created_span(lambda c: _seal_call_stub(_CALL_PARTS, c).payload)
+    _CUR_P0 = _seal_cursor_stub(b"st", _CID, 0).payload
+    _CALL_P0 = _seal_call_stub(_CALL_PARTS, 0).payload
+    _PSPAN_ERR = None if (_CUR_PSPAN[1] - _CUR_PSPAN[0], _CALL_PSPAN[1] - _CALL_PSPAN[0]) == (8, 8) else "created_at field is not 8 bytes wide"
+except Exception as _e:  # noqa: BLE001
+    _CUR_PSPAN = _CALL_PSPAN = (0, 0)
+    _CUR_P0 = _CALL_P0 = b""
+    _PSPAN_ERR = repr(_e)
+tc.reset()
 
 
-def _replay_ttl(args: dict) -> str | None:
-    """Real crypto/zstd/base64; the clock seen by the token module is substituted (integer seconds)."""
-    created = sum(t * (256**i) for i, t in enumerate(args["ts"]))
-    now, ttl = args["now"], args["ttl"]
+def _real_ttl_case(kind: str, created: int, now: int, ttl: int, via_mint: bool) -> str | None:
+    """Real crypto/zstd/base64/pyarrow; only the clock seen by the token module is substituted (integer seconds)."""
     want_reject = ttl > 0 and now - created > ttl
-    saved = st.time
-    st.time = tc._FakeClock(now)  # type: ignore[assignment]
-    try:
-        for kind in ("cursor", "call"):
-            if kind == "cursor":
-                tok = st._seal_cursor_token(b"st", _CID, b"k" * 32, b"a", created)
-                op = lambda: st._open_cursor_token(tok, b"k" * 32, b"a", ttl)  # noqa: E731
-            else:
-                tok = st._seal_call_token(b"c", "T", b"s", b"i", _CID, "sid", b"k" * 32, b"a", created)
-                op = lambda: st._open_call_token(tok, b"k" * 32, b"a", ttl)  # noqa: E731
-            try:
-                op()
-                rejected = False
-            except Exception:  # noqa: BLE001
-                rejected = True
-            if rejected != want_reject:
-                return f"{kind} token created at {created}, opened at {now} with ttl={ttl} was {'rejected' if rejected else 'accepted'}"
-    finally:
-        st.time = saved  # type: ignore[assignment]
+    with tc.RealWorld({"m": tc.RealStateA}, _KR, ttl, 0, now=created) as w:
+        if via_mint:
+            s = w.init("m", None)  # the real mint functions read the (substituted) clock themselves
+            tok, aad = (s["cursor"], st._compute_aad(None)) if kind == "cursor" else (s["call"], tc.call_aad(None, "m"))
+        elif kind == "cursor":
+            tok, aad = st._seal_cursor_token(b"st", _CID, _KR, _AR, created), _AR
+        else:
+            tok, aad = _seal_call_real(_CALL_PARTS, created), _AR
+        w.clock.now = now
+        try:
+            (st._open_cursor_token if kind == "cursor" else st._open_call_token)(tok, _KR, aad, ttl)
+            rejected = False
+        except Exception as e:  # noqa: BLE001
+            if not _is_400(e):
+                return f"{kind} token created at {created}, opened at {now} with ttl={ttl}: {e!r} instead of the HTTP 400 rejection"
+            rejected = True
+    if rejected != want_reject:
+        return f"{kind} token {'minted' if via_mint else 'sealed'} at {created}, opened at {now} with ttl={ttl} was {'rejected' if rejected else 'accepted'}"
     return None
 
 
-@cond(q=40, t=120, stubs=tc.TOKEN_STUBS, encoded=[st._open_cursor_token, st._open_call_token], bound="all 64-bit created_at, unbounded int now>=0 and ttl", replay=_replay_ttl, signature=lambda a, c: "C12:ttl:decision")
+def _replay_ttl(args: dict) -> str | None:
+    created = sum(t * (256**i) for i, t in enumerate(args["ts"]))
+    now, ttl = args["now"], args["ttl"]
+    if ttl < 0 or created > now:
+        return None
+    return _real_ttl_case("call" if args["call_kind"] else "cursor", created, now, ttl, False)
+
+
+@cond(q=40, t=120, stubs=tc.TOKEN_STUBS, encoded=[st._open_cursor_token, st._open_call_token], bound="all 64-bit created_at <= now, unbounded int now, ttl >= 0 (0 = no expiry)", replay=_replay_ttl,
+      signature=lambda a, c: "C12:ttl:decision:" + ("call" if a.get("call_kind") else "cursor"))
 def ttl_rejects_iff_older_than_ttl(now: int, ts: _T8, ttl: int, call_kind: bool) -> bool:
     """
-    pre: all(0 <= t < 256 for t in ts) and 0 <= now
+    pre: all(0 <= t < 256 for t in ts) and 0 <= now and 0 <= ttl
     post: _
     """
+    if _PSPAN_ERR is not None:
+        raise HarnessModelError(f"timestamp field could not be derived from the live sealer: {_PSPAN_ERR}")
     tc.reset(now=now)
     created = sum(t * (256**i) for i, t in enumerate(ts))
+    if created > now:
+        return True  # tokens from the future: outside the documented domain (a clock-skew guard would be legitimate)
     want_reject = ttl > 0 and now - created > ttl
-    if call_kind:
-        plain = bytes(ts) + _CID + struct.pack("<I", 1) + b"c" + struct.pack("<I", 1) + b"T" + struct.pack("<I", 1) + b"s" + struct.pack("<I", 1) + b"i" + struct.pack("<I", 3) + b"sid"
-        tok = tc.Box(st._CODEC_RAW + plain, b"k", b"a", st._CALL_TOKEN_VERSION)
-        want_ok = (b"c", "T", b"s", b"i", _CID, "sid")
-        msg = "Call token expired"
-    else:
-        plain = bytes(ts) + _CID + struct.pack("<I", 2) + b"st"
-        tok = tc.Box(st._CODEC_RAW + plain, b"k", b"a", st._CURSOR_TOKEN_VERSION)
-        want_ok = (b"st", _CID)
-        msg = "State token expired"
+    p0, (lo, hi) = (_CALL_P0, _CALL_PSPAN) if call_kind else (_CUR_P0, _CUR_PSPAN)
+    tok = tc.Box(p0[:lo] + bytes(ts) + p0[hi:], b"k", b"a", st._CALL_TOKEN_VERSION if call_kind else st._CURSOR_TOKEN_VERSION)
     try:
         r = tc.open_call_token(tok, b"k", b"a", ttl) if call_kind else tc.open_cursor_token(tok, b"k", b"a", ttl)
     except Exception as e:  # noqa: BLE001
-        return want_reject and tc.http_error_info(e) == (400, msg)
-    return (not want_reject) and r == want_ok
+        return want_reject and _is_400(e)
+    return (not want_reject) and r == (_CALL_PARTS if call_kind else _CUR_PARTS)
 
 
-@cond(q=30, t=60, stubs=tc.TOKEN_STUBS, encoded=[st._seal_cursor_token, st._seal_call_token, st._mint_cursor_token, st._mint_call_token], bound="all 64-bit created_at / clock values")
+def _replay_stamp(args: dict) -> str | None:
+    """The composition on real code: mint / seal at clock `created`, open around the expiry boundary of several TTLs."""
+    created = args["created"]
+    for kind in ("cursor", "call"):
+        for ttl, age in ((0, 10**9), (1, 0), (1, 1), (1, 2), (50, 50), (50, 51), (3600, 3600), (3600, 3601)):
+            bad = _real_ttl_case(kind, created, created + age, ttl, bool(args["use_clock"]))
+            if bad:
+                return bad
+    return None
+
+
+@cond(q=30, t=60, stubs=tc.TOKEN_STUBS, encoded=[st._seal_cursor_token, st._seal_call_token, st._mint_cursor_token, st._mint_call_token], bound="all 64-bit created_at / clock values",
+      replay=_replay_stamp, signature=lambda a, c: "C12:ttl:stamp:" + ("clock" if a.get("use_clock") else "explicit"))
 def seal_side_stores_created_at_little_endian(created: int, use_clock: bool) -> bool:
     """
     pre: 0 <= created < _U64
     post: _
     """
+    if _PSPAN_ERR is not None:
+        raise HarnessModelError(f"timestamp field could not be derived from the live sealer: {_PSPAN_ERR}")
     tc.reset(now=created)
     want = created.to_bytes(8, "little")
+    (lo1, hi1), (lo2, hi2) = _CUR_PSPAN, _CALL_PSPAN
     if use_clock:
         # the mint functions read the clock themselves
         state = tc.StateBase(b"\xffst")
         t1, _sb = tc.mint_cursor_token(state, tc.StateBase, _CID, b"k", None)
-        t2, cid2, _cs = tc.mint_call_token(None, tc.FakeSchema(b"S:o"), tc.FakeSchema(b"S:i"), b"k", None, "sid")
-        return t1.payload[1:9] == want and t1.payload[9:25] == _CID and t2.payload[1:9] == want and t2.payload[9:25] == cid2
-    t1 = tc.seal_cursor_token(b"st", _CID, b"k", b"a", created)
-    t2 = tc.seal_call_token(b"c", "T", b"s", b"i", _CID, "sid", b"k", b"a", created)
-    return t1.payload[:1] == st._CODEC_RAW and t1.payload[1:9] == want and t1.payload[9:25] == _CID and t2.payload[1:9] == want and t2.payload[9:25] == _CID
+        t2, _cid2, _cs = tc.mint_call_token(None, tc.FakeSchema(b"S:o"), tc.FakeSchema(b"S:i"), b"k", None, "sid")
+        return t1.payload[lo1:hi1] == want and t2.payload[lo2:hi2] == want
+    t1 = _seal_cursor_stub(b"st", _CID, created)
+    t2 = _seal_call_stub(_CALL_PARTS, created)
+    # the field carries created_at; everything else is what the sealer writes for created_at = 0
+    return (
+        t1.payload[lo1:hi1] == want and t1.payload[:lo1] == _CUR_P0[:lo1] and t1.payload[hi1:] == _CUR_P0[hi1:]
+        and t2.payload[lo2:hi2] == want and t2.payload[:lo2] == _CALL_P0[:lo2] and t2.payload[hi2:] == _CALL_P0[hi2:]
+    )
 
 
 # ---------------------------------------------------------------------------
@@ -554,6 +671,7 @@ _unpack_lazy = reglobalize(
     time=tc.TIME,
     _resolve_call_from_token=_resolve_call_lazy,
     _deserialize_state_bytes=tc.deserialize_state_bytes,
+    **tc.if_referenced(aps._unpack_and_recover_state, _open_call_token=_open_call_lazy, secrets=tc.SECRETS, pa=tc.PA),
 )
 
 
@@ -564,17 +682,15 @@ def _call_unpack(app, token, call_token, state_info, auth, method):  # type: ign
 
 
 _GARBAGE = tc.RealWorld.GARBAGE
-_SIG_CUR = "State token signature verification failed"
-_SIG_CALL = "Call token signature verification failed"
 
 
-def _expected(i1: int, r: int, warm: bool, tok_sel: int, call_present: bool, call_sel_fn, dt: int) -> tuple:  # type: ignore[no-untyped-def]
-    """Specification of the outcome: ('ok', k) = served with stream k's state, or ('err', message).
+def _cursor_spec(i1: int, r: int, tok_sel: int, dt: int) -> tuple:
+    """What the cursor slot alone decides: ('ok', k) = a cursor of stream k minted for the requester and inside the TTL,
+    else ('err', class).
 
     Streams 1 (identity i1) and 2 (requester's own) were opened at t=100 with ttl=_TTL; the request
     arrives at t = 100 + dt.  Cursor slot: 0 cur1, 1 cur2, 2 call1, 3 call2 relabelled as
-    cursor, 4 cur2 under a foreign key, 5 garbage.  Call slot: 0 call1, 1 call2, 2 cur2, 3 cur2 relabelled as
-    call token, 4 call2 under a foreign key, 5 garbage, 6 cur1.
+    cursor, 4 cur2 under a foreign key, 5 garbage.
     """
     same1 = tc.real_identity(_IDS[i1]) == tc.real_identity(_IDS[r])
     if tok_sel == 0 and same1:
@@ -582,22 +698,33 @@ def _expected(i1: int, r: int, warm: bool, tok_sel: int, call_present: bool, cal
     elif tok_sel == 1:
         k = 2
     elif tok_sel == 5:
-        return ("err", "Malformed state token")
+        return ("err", "cursor-garbage")
     else:
-        return ("err", _SIG_CUR)
+        return ("err", "cursor-auth")  # other identity's / kind-swapped / relabelled / foreign-key: not a cursor this server minted for this caller
     if dt > _TTL:
-        return ("err", "State token expired")
-    if warm and dt < _TTL:
-        return ("ok", k)  # cache hit: the call token is not consulted
+        return ("err", "expired")
+    return ("ok", k)
+
+
+def _call_class(i1: int, r: int, k: int, call_present: bool, call_sel: int) -> str:
+    """The call slot, given a genuine cursor of stream k: 'match' = the call token minted with that cursor's stream, else why not.
+    Call slot: 0 call1, 1 call2, 2 cur2, 3 cur2 relabelled as call token, 4 call2 under a foreign key, 5 garbage, 6 cur1."""
+    same1 = tc.real_identity(_IDS[i1]) == tc.real_identity(_IDS[r])
     if not call_present:
-        return ("err", "Missing call token in exchange request")
-    call_sel = call_sel_fn()  # only now does the call slot matter
+        return "call-absent"
     if call_sel == 5:
-        return ("err", "Malformed call token")
+        return "call-garbage"
     if call_sel == 1 or (call_sel == 0 and same1):
         # a genuine call token of the requester
-        return ("ok", k) if call_sel == (0 if k == 1 else 1) else ("err", "State token does not belong to the supplied call token")
-    return ("err", _SIG_CALL)
+        return "match" if call_sel == (0 if k == 1 else 1) else "cross-stream"
+    return "call-auth"
+
+
+def _finding_class(args: dict) -> str:
+    cs = _cursor_spec(args["i1"], args["r"], args["tok_sel"], args["dt"])
+    if cs[0] == "err":
+        return cs[1]
+    return "own-cursor:" + _call_class(args["i1"], args["r"], cs[1], args["call_present"], args["call_sel"])
 
 
 def _scenario(i1: int, r: int, warm: bool, with_cs: bool = True):  # type: ignore[no-untyped-def]
@@ -619,6 +746,18 @@ def _pick_concrete(sel: int, n: int) -> int:
     raise AssertionError
 
 
+def _rejection_of(app, cursor, call, auth):  # type: ignore[no-untyped-def]
+    """(status, message) with which the same worker rejects a reference presentation; None if it does not reject it."""
+    try:
+        _call_unpack(app, cursor, call, _SA, auth, "m")
+    except Exception as e:  # noqa: BLE001
+        return tc.http_error_info(e)
+    return None
+
+
+_STATE_EVENTS = ("state.deserialize", "state.deserialize_compact", "bind_call_state", "rehydrate")
+
+
 def _resolution_check(i1: int, r: int, warm: bool, tok_sel: int, call_present: bool, call_sel: int, dt: int, with_cs: bool = True) -> bool:
     i1, r, tok_sel = _pick_concrete(i1, 4), _pick_concrete(r, 4), _pick_concrete(tok_sel, 6)
     app, (cur1, call1), (cur2, call2) = _scenario(i1, r, warm, with_cs)
@@ -636,45 +775,55 @@ def _resolution_check(i1: int, r: int, warm: bool, tok_sel: int, call_present: b
     except Exception as e:  # noqa: BLE001
         err = tc.http_error_info(e)
         if err is None or err[0] != 400:
-            return False
+            return False  # a rejection is the HTTP 400 error, nothing else
     log = list(tc.LOG)
-    # --- order: which opens happened, under which AAD, before any user-visible work
+    # --- order: nothing is parsed, deserialised, bound or rehydrated before the token it comes from was authenticated
+    #     for this requester (a failed open under whatever AAD is harmless and not looked at)
     first_cur = -1
     first_call = -1
     for n, ev in enumerate(log):
         if ev[0] == "open":
-            if ev[1] == st._CURSOR_TOKEN_VERSION:
-                if ev[2] != aad_r:
-                    return False  # a cursor opened under an AAD that is not the requester's
-                if ev[3] and first_cur < 0:
-                    first_cur = n
-            elif ev[1] == st._CALL_TOKEN_VERSION:
-                if ev[2] != caad_r:
-                    return False
-                if ev[3] and first_call < 0:
-                    first_call = n
+            if not ev[3]:
+                continue
+            if ev[1] == st._CURSOR_TOKEN_VERSION and ev[2] == aad_r:
+                first_cur = n if first_cur < 0 else first_cur
+            elif ev[1] == st._CALL_TOKEN_VERSION and ev[2] == caad_r:
+                first_call = n if first_call < 0 else first_call
             else:
-                return False
+                return False  # something opened under an AAD that is not this requester's for that token kind
         elif ev[0] in _USER_EVENTS:
             if first_cur < 0:
                 return False  # work before the cursor token was authenticated
             if ev[0] in _CALL_EVENTS and first_call < 0:
                 return False  # call token contents parsed before it was authenticated
     # --- decision
-    want = _expected(i1, r, warm, tok_sel, call_present, lambda: _pick_concrete(call_sel, 7), dt)
-    if want[0] == "err":
-        # a rejected request never reaches deserialisation, binding or rehydration
-        return err == (400, want[1]) and not any(ev[0] in ("state.deserialize", "state.deserialize_compact", "bind_call_state", "rehydrate") for ev in log)
+    cs = _cursor_spec(i1, r, tok_sel, dt)
+    if err is not None and any(ev[0] in _STATE_EVENTS for ev in log):
+        return False  # a rejected request never reaches deserialisation, binding or rehydration
+    if cs[0] == "err":
+        if err is None:
+            return False  # served although the cursor slot holds no cursor minted for this caller inside the TTL
+        # no detail distinguishing WHICH authentication check failed: same answer as for a foreign-key cursor
+        return cs[1] != "cursor-auth" or err == _rejection_of(app, _foreign(cur2), None, auth)
+    k = cs[1]
     if err is not None:
-        return False
-    k = want[1]
+        # a genuine cursor was refused: legitimate only if its call could not be resolved (never for the genuine pair)
+        cc = _call_class(i1, r, k, call_present, _pick_concrete(call_sel, 7) if call_present else 0)
+        if cc == "match":
+            return False
+        return cc != "call-auth" or err == _rejection_of(app, cursor_slot, _foreign(call2), auth)
+    if not warm:
+        # no cache: served only with the genuine call token of that very stream (a warm worker may answer from its cache
+        # without looking at the call slot - then everything served must still be stream k's, checked below)
+        if _call_class(i1, r, k, call_present, _pick_concrete(call_sel, 7) if call_present else 0) != "match":
+            return False
     state_obj, resolved, call_id, state_bytes = out
     want_state = b"\xffstate%d" % k
     return (
         type(state_obj) is _SA
         and state_obj.payload == want_state
         and state_bytes == want_state
-        and resolved.stream_id == "sid%d" % (2 * k - 1)
+        and resolved.stream_id == "sid%d" % k
         and ((resolved.call_state is None) if not with_cs else resolved.call_state.payload == b"cs%d" % k)
         and resolved.input_schema == tc.FakeSchema(b"S:in%d" % k)
         and resolved.output_schema == tc.FakeSchema(b"S:out%d" % k)
@@ -690,7 +839,7 @@ def _replay_resolution(warm: bool, with_cs: bool = True):  # type: ignore[no-unt
 
     def run(args: dict) -> str | None:
         i1, r, tok_sel, call_present, call_sel, dt = args["i1"], args["r"], args["tok_sel"], args["call_present"], args["call_sel"], args["dt"]
-        want = _expected(i1, r, warm, tok_sel, call_present, lambda: call_sel, dt)
+        who = f"(requester {_IDS[r]!r}, stream-1 owner {_IDS[i1]!r}, cursor slot {tok_sel}, call slot {call_sel if call_present else None}, t=init+{dt}s, warm={warm})"
         with tc.RealWorld({"m": real_state}, _KEY, _TTL, 8 if warm else 0, now=100) as w, tc.RealWorld({"m": real_state}, b"other-key", _TTL, 0, now=100) as other:
             s1 = w.init("m", _IDS[i1])
             s2 = w.init("m", _IDS[r])
@@ -699,21 +848,41 @@ def _replay_resolution(warm: bool, with_cs: bool = True):  # type: ignore[no-unt
             call = [s1["call"], s2["call"], s2["cursor"], w.relabel(s2["cursor"], st._CALL_TOKEN_VERSION), f2["call"], w.GARBAGE, s1["cursor"]][call_sel] if call_present else None
             w.clock.now = 100 + dt
             got = w.unpack("m", _IDS[r], cursor, call)
-        if want[0] == "err":
-            if got[0] == "err" and got[1] == 400 and got[2] == want[1]:
-                return None
-            return f"request that must be rejected with 400 {want[1]!r} gave {got[:3]!r} (requester {_IDS[r]!r}, stream-1 owner {_IDS[i1]!r}, cursor slot {tok_sel}, call slot {call_sel if call_present else None}, warm={warm})"
-        sk = (s1, s2)[want[1] - 1]
-        if got[0] == "ok" and got[2].stream_id == sk["stream_id"] and (got[2].call_state.tag if got[2].call_state is not None else None) == sk["tag"]:
+            ref_cur = w.unpack("m", _IDS[r], f2["cursor"], None)
+            ref_call = w.unpack("m", _IDS[r], cursor, f2["call"])
+        if got[0] == "exc" or (got[0] == "err" and got[1] != 400):
+            return f"request answered {got[:3]!r} instead of being served or rejected with HTTP 400 {who}"
+        cs = _cursor_spec(i1, r, tok_sel, dt)
+        if cs[0] == "err":
+            if got[0] == "ok":
+                return f"served ({got[2].stream_id}) although the cursor slot holds no cursor minted for this caller inside the TTL [{cs[1]}] {who}"
+            if cs[1] == "cursor-auth" and got[:3] != ref_cur[:3]:
+                return f"the rejection {got[:3]!r} differs from the one for a foreign-key cursor {ref_cur[:3]!r}: it tells which authentication check failed {who}"
             return None
-        return f"request that must be served with stream {want[1]} gave {got[:3]!r}"
+        k = cs[1]
+        cc = _call_class(i1, r, k, call_present, call_sel)
+        if got[0] == "err":
+            if cc == "match":
+                return f"the genuine cursor/call pair of stream {k} was rejected inside the TTL: {got[:3]!r} {who}"
+            if cc == "call-auth" and got[:3] != ref_call[:3]:
+                return f"the rejection {got[:3]!r} differs from the one for a foreign-key call token {ref_call[:3]!r}: it tells which authentication check failed {who}"
+            return None
+        if not warm and cc != "match":
+            return f"a worker without cache served stream {got[2].stream_id} although the call slot does not hold that stream's call token [{cc}] {who}"
+        sk = (s1, s2)[k - 1]
+        if got[2].stream_id == sk["stream_id"] and (got[2].call_state.tag if got[2].call_state is not None else None) == sk["tag"]:
+            return None
+        return f"the cursor of stream {k} ({sk['stream_id']}) was served with the call of {got[2].stream_id!r} / call state {getattr(got[2].call_state, 'tag', None)!r} {who}"
 
     return run
 
 
-@cond(q=60, t=300, stubs=_D_STUBS, encoded=[aps._unpack_and_recover_state, aps._resolve_call_from_token, st._CallStateCache.get, st._CallStateCache.put],
+_RES_ENC = [aps._unpack_and_recover_state, aps._resolve_call_from_token, st._CallStateCache.get, st._CallStateCache.put]
+
+
+@cond(q=75, t=300, stubs=_D_STUBS, encoded=_RES_ENC,
       bound="cold worker (cache capacity 0): 4x4 identities, 6 cursor-slot x (absent + 7) call-slot presentations, request any number of seconds >= 0 after /init (ttl 50)",
-      replay=_replay_resolution(False), signature=lambda a, c: "C12:resolution:cold")
+      replay=_replay_resolution(False), signature=lambda a, c: "C12:resolution:cold:" + _finding_class(a))
 def resolution_order_cold_cache(i1: int, r: int, tok_sel: int, call_present: bool, call_sel: int, dt: int) -> bool:
     """
     pre: 0 <= i1 <= 3 and 0 <= r <= 3 and 0 <= tok_sel <= 5 and 0 <= call_sel <= 6 and 0 <= dt
@@ -722,9 +891,9 @@ def resolution_order_cold_cache(i1: int, r: int, tok_sel: int, call_present: boo
     return _resolution_check(i1, r, False, tok_sel, call_present, call_sel, dt)
 
 
-@cond(q=60, t=300, stubs=_D_STUBS, encoded=[aps._unpack_and_recover_state, aps._resolve_call_from_token, st._CallStateCache.get, st._CallStateCache.put],
+@cond(q=75, t=300, stubs=_D_STUBS, encoded=_RES_ENC,
       bound="worker whose cache was warmed by both /init calls: same space as the cold item",
-      replay=_replay_resolution(True), signature=lambda a, c: "C12:resolution:warm")
+      replay=_replay_resolution(True), signature=lambda a, c: "C12:resolution:warm:" + _finding_class(a))
 def resolution_order_warm_cache(i1: int, r: int, tok_sel: int, call_present: bool, call_sel: int, dt: int) -> bool:
     """
     pre: 0 <= i1 <= 3 and 0 <= r <= 3 and 0 <= tok_sel <= 5 and 0 <= call_sel <= 6 and 0 <= dt
@@ -795,16 +964,20 @@ def _replay_envelope(args: dict) -> str | None:
         got = None
     except Exception as e:  # noqa: BLE001
         return f"open_bytes raised {e!r} instead of SealError"
-    want = len(tok) == len(good) and tok[1:] == good[1:] and tok[0] == args["version2"] and key2 == k and aad2 == a
-    if want and got != p:
-        return f"genuine envelope did not open: {got!r}"
-    if not want and got is not None:
-        return f"open_bytes accepted an envelope it did not seal (mode {args['mode']}, pos {args['pos']}) under version {args['version2']}"
+    intact = len(tok) == len(good) and tok[1:] == good[1:] and key2 == k and aad2 == a  # nonce, ciphertext, tag, key, aad as sealed
+    if intact and tok[0] == v and args["version2"] == v:
+        return None if got == p else f"genuine envelope did not open: {got!r}"
+    if intact:
+        # only the version label differs (relabelled / opened as another kind): refusing and opening are both fine
+        # (binding the label into the tag is a hardening) - but it must never open to something else
+        return None if got is None or got == p else f"relabelled envelope opened to {got!r}, not to the sealed payload {p!r}"
+    if got is not None:
+        return f"open_bytes accepted an envelope it did not seal (mode {args['mode']}, pos {args['pos']}, same_key={args['same_key']}, same_aad={args['same_aad']}) under version {args['version2']}"
     return None
 
 
 @cond(q=60, t=200, stubs=_ENV_STUBS, encoded=[crypto.seal_bytes, crypto.open_bytes], bound="payload <= 2 bytes, same/other version byte, same/other key and aad; envelope untouched / relabelled / any one byte substituted / any truncation / one byte appended",
-      replay=_replay_envelope, signature=lambda a, c: "C12:envelope")
+      replay=_replay_envelope, signature=lambda a, c: "C12:envelope:" + ("untouched", "relabelled", "substituted", "truncated", "extended")[a.get("mode", 0)] + ("" if a.get("mode", 0) >= 2 or (a.get("same_key") and a.get("same_aad")) else ":other-key-or-aad"))
 def crypto_envelope_opens_exactly_what_it_sealed(payload: bytes, mode: int, pos: int, val: int, same_key: bool, same_aad: bool, same_version: bool) -> bool:
     """
     pre: len(payload) <= 2 and 0 <= mode <= 4 and 0 <= pos <= 43 and 0 <= val <= 255
@@ -823,7 +996,7 @@ def crypto_envelope_opens_exactly_what_it_sealed(payload: bytes, mode: int, pos:
     key2, aad2 = (key if same_key else b"k2"), (aad if same_aad else b"a2")
     good = _env_seal(payload, key, aad=aad, version=version)
     if len(good) != 1 + crypto._NONCE_LEN + len(payload) + crypto._TAG_LEN or good[0] != version:
-        return False
+        raise HarnessModelError("envelope is not version byte + nonce + ciphertext + tag: the tamper positions of this item do not cover it")
     tok = _tamper(good, mode, pos, val, version2)
     try:
         got = _env_open(tok, key2, aad=aad2, version=version2)
@@ -831,17 +1004,19 @@ def crypto_envelope_opens_exactly_what_it_sealed(payload: bytes, mode: int, pos:
         got = None
     except Exception:  # noqa: BLE001
         return False
-    genuine = len(tok) == len(good) and tok[1:] == good[1:] and tok[0] == version2 and same_key and same_aad
-    if genuine:
-        return got == payload
-    return got is None
+    intact = len(tok) == len(good) and tok[1:] == good[1:] and same_key and same_aad
+    if intact and tok[0] == version and version2 == version:
+        return got == payload  # untouched, same key / aad / version: must open to what was sealed
+    if intact:
+        return got is None or got == payload  # only the version label differs: refusing or opening, never another payload
+    return got is None  # other key, other aad, any byte after the label changed, truncated, extended: SealError
 
 
 _NOCS_BOUND = "streams whose method returns NO call state (empty call-state segment): 4x4 identities, cursor slot = a genuine cursor of stream 1 / stream 2, (absent + 7) call-slot presentations, any request time >= /init; "
 
 
 @cond(q=60, t=300, stubs=_D_STUBS, encoded=[aps._unpack_and_recover_state, aps._resolve_call_from_token], bound=_NOCS_BOUND + "cold worker",
-      replay=_replay_resolution(False, False), signature=lambda a, c: "C12:resolution:cold:no-call-state")
+      replay=_replay_resolution(False, False), signature=lambda a, c: "C12:resolution:cold:no-call-state:" + _finding_class(a))
 def resolution_order_cold_cache_without_call_state(i1: int, r: int, tok_sel: int, call_present: bool, call_sel: int, dt: int) -> bool:
     """
     pre: 0 <= i1 <= 3 and 0 <= r <= 3 and 0 <= tok_sel <= 1 and 0 <= call_sel <= 6 and 0 <= dt
@@ -851,7 +1026,7 @@ def resolution_order_cold_cache_without_call_state(i1: int, r: int, tok_sel: int
 
 
 @cond(q=60, t=300, stubs=_D_STUBS, encoded=[aps._unpack_and_recover_state, aps._resolve_call_from_token], bound=_NOCS_BOUND + "warm worker",
-      replay=_replay_resolution(True, False), signature=lambda a, c: "C12:resolution:warm:no-call-state")
+      replay=_replay_resolution(True, False), signature=lambda a, c: "C12:resolution:warm:no-call-state:" + _finding_class(a))
 def resolution_order_warm_cache_without_call_state(i1: int, r: int, tok_sel: int, call_present: bool, call_sel: int, dt: int) -> bool:
     """
     pre: 0 <= i1 <= 3 and 0 <= r <= 3 and 0 <= tok_sel <= 1 and 0 <= call_sel <= 6 and 0 <= dt
